@@ -197,3 +197,33 @@ func WaitHandlersQuiet(timeout time.Duration) bool {
 		}
 	}
 }
+
+// Stacks renders up to n goroutines of an inventory with all their frames.
+func Stacks(gs []Goroutine, n int) []string {
+	var out []string
+	for i, g := range gs {
+		if i >= n {
+			break
+		}
+		out = append(out, "["+g.State+"] "+strings.Join(g.Funcs, " < ")+" << "+g.CreatedBy)
+	}
+	return out
+}
+
+// WaitHandlersAtMost waits until at most n RPC handler goroutines are alive.
+func WaitHandlersAtMost(n int, timeout time.Duration) bool {
+	deadline := time.Now().Add(timeout)
+	wait := 500 * time.Microsecond
+	for {
+		if HandlerGoroutines() <= n {
+			return true
+		}
+		if time.Now().After(deadline) {
+			return false
+		}
+		time.Sleep(wait)
+		if wait < 20*time.Millisecond {
+			wait *= 2
+		}
+	}
+}
